@@ -610,5 +610,23 @@ func cliConsumers(c *harness.Ctx, dir string, b *backend, blob []byte, idx desyn
 		c.Violation("cli-untar", "`desync untar -i` over a %s store with a poisoned chunk exited 0 %s", b.kind, se)
 		return
 	}
+	// the poisoned store as the second member of a failover group whose first member is down and - as recommended for
+	// a chunk server in the chain - configured with skip-verify: the options of one member are not those of the other
+	if !strings.Contains(b.cliLoc, "|") {
+		down := httptest.NewServer(http.HandlerFunc(func(w http.ResponseWriter, r *http.Request) { http.Error(w, "down", 500) }))
+		defer down.Close()
+		cfg2 := filepath.Join(dir, "cli-config-group.json")
+		dsu.WriteFile(cfg2, []byte(fmt.Sprintf(`{"store-options": {%q: {"skip-verify": true, "error-retry": 0}, %q: {"uncompressed": %v, "error-retry": 1}}}`, down.URL+"/", b.cliLoc, b.uncompressed)))
+		group := down.URL + "/|" + b.cliLoc
+		cmd := exec.Command(cli, "--config", cfg2, "cat", "-s", group, idxFile)
+		cmd.Env = append(append(os.Environ(), "HOME="+dir), b.cliEnv...)
+		var so, se bytes.Buffer
+		cmd.Stdout, cmd.Stderr = &so, &se
+		if err := cmd.Run(); err == nil || !bytes.HasPrefix(blob, so.Bytes()) {
+			c.Violation("cli-cat-group", "`desync cat -s 'down-http|%s'` (skip-verify configured for the first member only) over a poisoned second member: exit error %v, %d bytes on stdout, correct prefix=%v %s", b.kind, err, so.Len(), bytes.HasPrefix(blob, so.Bytes()), se.String())
+			return
+		}
+		c.Count("cli_group_runs", 1)
+	}
 	c.Count("cli_consumer_runs", 1)
 }
